@@ -2261,6 +2261,41 @@ struct Explorer {
     }
   }
 
+  /// Structural fact for F46-C11: some statement Q reads (through dyndep information) a node that dyndep information makes
+  /// an output of statement P, and no chain of declared inputs leads from Q to P.
+  bool DyndepOutputConsumerWithoutManifestPath(const Variant& v) {
+    for (size_t pi = 0; pi < v.stmts.size(); ++pi) {
+      const Stmt& p = v.stmts[pi];
+      if (p.phony || p.dyndep.empty()) continue;
+      for (auto& n : p.spec.outs) {
+        if (find(p.outs.begin(), p.outs.end(), n) != p.outs.end()) continue;   // declared, not dyndep-supplied
+        for (size_t qi = 0; qi < v.stmts.size(); ++qi) {
+          const Stmt& q = v.stmts[qi];
+          if (qi == pi || q.phony) continue;
+          bool reads = find(q.spec.reads.begin(), q.spec.reads.end(), n) != q.spec.reads.end();
+          bool declared = false;
+          for (auto& x : q.AllDeclaredInputs()) if (x == n) declared = true;
+          if (!reads || declared) continue;
+          // declared-input closure of q
+          set<string> seen;
+          vector<string> todo = q.AllDeclaredInputs();
+          bool path = false;
+          while (!todo.empty() && !path) {
+            string x = todo.back();
+            todo.pop_back();
+            if (!seen.insert(x).second) continue;
+            auto pr = v.producer.find(x);
+            if (pr == v.producer.end()) continue;
+            if ((size_t)pr->second == pi && find(p.outs.begin(), p.outs.end(), x) != p.outs.end()) { path = true; break; }
+            for (auto& y : v.stmts[pr->second].AllDeclaredInputs()) todo.push_back(y);
+          }
+          if (!path) return true;
+        }
+      }
+    }
+    return false;
+  }
+
   /// Classification helper for the known finding F1: is the statement dirty by what the manifest alone
   /// says (missing output, no / different log record, declared non-order-only input newer)?  Then
   /// ninja does not load its recorded dependencies.
@@ -3133,7 +3168,17 @@ struct Explorer {
           for (auto& c : r.cmds) if (c.finished && c.status == 130) sig = true;
           for (auto& e : r.events) if (e.kind == Event::kInterrupt) sig = true;
           if (!w.abnormal && !sig) {
+            size_t nv0 = vs.size();
             CheckTwin(op, r, w.disk, d, *twin_res, w.twin, twin_after, &vs);
+            // F46 seen from C11: ninja learns that a node is some statement's (dyndep-supplied) output only when it scans
+            // that statement; a consumer that names the node through its own dyndep file and has no manifest path to the
+            // producer may be scanned first, or alone, and takes the node for a source file
+            if (vs.size() > nv0)
+              if (const Variant* fv = VariantOf(sc, w.disk)) {
+                bool f46 = DyndepOutputConsumerWithoutManifestPath(*fv);
+                for (size_t vi = nv0; vi < vs.size(); ++vi)
+                  vs[vi].facts.set("a_consumer_of_a_dyndep_supplied_output_has_no_manifest_path_to_its_producer", f46);
+              }
           } else if (r.exit_code == 0 && op.cfg.edits_during.empty()) {
             // After an interrupted build the two projects are legitimately apart (ninja removes more of a command with a
             // depfile than of one without): no lock-step comparison, but what a later successful build leaves is
